@@ -252,6 +252,14 @@ def delta_cases(ctx):
         e = float(np.linalg.norm(np.asarray(r[2]) - d))
         if e > 2 * m * m + 1e-15:
             ctx.fail(cid, 'base.tr2delta', 'mismatch', dict(P, law='first-order'), 'tr2delta(exp d) differs from d = vexa(log T) by %.3g > 2|d|^2' % e)
+        # the same matrix handed to tr2delta and then to the logarithm (a sequence on one value)
+        Tm = ref.mp_exp_se3(d)
+        ok2, r2 = call(lambda: (b.tr2delta(Tm), b.trlog(Tm, twist=True)))
+        if not ok2:
+            ctx.fail(cid, 'base.tr2delta', 'raises:' + type(r2).__name__, dict(P, law='first-order-same-matrix'), 'tr2delta(T) followed by trlog(T) raised %r' % (r2,))
+        elif float(np.linalg.norm(np.asarray(r2[0]) - np.asarray(r2[1]))) > 2 * m * m + 1e-12:
+            ctx.fail(cid, 'base.tr2delta', 'mismatch', dict(P, law='first-order-same-matrix'),
+                     'tr2delta(T) and the logarithm of the same matrix T differ by %.3g > 2|d|^2' % float(np.linalg.norm(np.asarray(r2[0]) - np.asarray(r2[1]))))
         ok, X = call(sm.SE3.Delta, d.copy())
         if ok:
             if not hasattr(X, 'data') or len(X.data) != 1 or ref.maxdiff(X.data[0], np.eye(4) + ref.skewa(d)) > 1e-12:
